@@ -80,6 +80,16 @@ CLAIMED['C19'] = (
     'Delegation fidelity of oxmpl-py: at each of the 65 binding->core call sites same-typed scalar arguments are passed in the core parameter order (decided by name agreement between binding and core parameter names) and unmodified; every planner wrapper reaches the core for all 6 variants in new / setup / solve (/ construct_roadmap) and the four wrappers agree in shape; the 31 state / path / problem-definition conversions contain no float operation and no re-canonicalisation; the 5 fallible space constructors map their error to ValueError and never unwrap; PlannerConfig(seed) reaches the core unmodified. Outputs of two runs are not compared.',
     'Trusted: rustc MIR, mirfacts; pyo3 extraction passes numbers unchanged; core parameter names are meaningful.',
     'DESIGN.md section 4, C19')
+CLAIMED['C09'] = (
+    'interval abstract interpretation (range + NaN flag) of the distance bodies over MIR — range clauses only',
+    'PARTIAL CLAIM — range clauses of C09 only: every StateSpace::distance body (R^n, SO(2), SO(3), compound; SE(2)/SE(3) delegate, see C13.match) is abstractly interpreted over intervals with a may-be-NaN flag and shown to return a value in [0, +inf) resp. [0, pi] that is never NaN, for ALL finite inputs (so for every special value of the lattice at once). Identity d(a,a)=0, symmetry, triangle inequality, representation invariance and agreement with a reference are NOT decided by this check (they need numeric or symbolic evaluation, another technique family).',
+    'Trusted: rustc MIR, mirfacts, the interval transfer functions (documented ranges of abs, sqrt, powi, min/max, acos, rem_euclid incl. its rounding case); inputs finite and below 1e150 in magnitude.',
+    'DESIGN.md section 10.5')
+CLAIMED['C10'] = (
+    'interval abstract interpretation of the SO(2) angle producers over MIR — canonical-form clause for angles only',
+    'PARTIAL CLAIM — canonical-form clause for angles only: the value stored by SO2StateSpace::interpolate and the values produced by SO2State::new / SO2State::normalise are shown to lie in [-pi, pi] and to be non-NaN for all finite inputs and finite t. End-point exactness, shortest-path / constant-speed proportionality, unit norm of interpolated quaternions and a<->b symmetry are NOT decided (numeric statements outside this technique family); checks that rely on them (C03, C05) say so.',
+    'Trusted: rustc MIR, mirfacts, interval transfer functions; rem_euclid(x, m) in [0, m]; inputs finite and below 1e150.',
+    'DESIGN.md section 10.5')
 NOT_BUILT = []
 for p in NOT_BUILT:
     if p not in CLAIMED:
